@@ -125,17 +125,11 @@ class PageFeatureProcessor:
             and self._should_show_element(document.rtf_page.page_source, page)
         )
 
-        footnote_as_table_on_last = (
-            document.rtf_footnote
-            and document.rtf_footnote.text
-            and getattr(document.rtf_footnote, "as_table", True)
-            and document.rtf_page.page_footnote in ("last", "all")
+        footnote_as_table_on_page = has_footnote_on_page and getattr(
+            document.rtf_footnote, "as_table", True
         )
-        source_as_table_on_last = (
-            document.rtf_source
-            and document.rtf_source.text
-            and getattr(document.rtf_source, "as_table", False)
-            and document.rtf_page.page_source in ("last", "all")
+        source_as_table_on_page = has_source_on_page and getattr(
+            document.rtf_source, "as_table", False
         )
 
         # 4. Bottom Border Logic
@@ -148,7 +142,7 @@ class PageFeatureProcessor:
                     else document.rtf_body.border_last
                 )
 
-                if not (has_footnote_on_page or has_source_on_page):
+                if not (footnote_as_table_on_page or source_as_table_on_page):
                     # Apply to last data row
                     for col_idx in range(page_df_width):
                         page_attrs = self._apply_border_to_cell(
@@ -176,7 +170,7 @@ class PageFeatureProcessor:
                 # The original code checked `page_info["end_row"] == total_rows - 1`.
                 # Here we rely on `is_last_page` flag which comes from strategy.
 
-                if not (footnote_as_table_on_last or source_as_table_on_last):
+                if not (footnote_as_table_on_page or source_as_table_on_page):
                     # Apply to last data row
                     for col_idx in range(page_df_width):
                         page_attrs = self._apply_border_to_cell(
